@@ -68,7 +68,8 @@ def handle (j : Json) : Except String Json := do
       | .error e => pure (Json.mkObj [("err", Json.str e.name), ("phase", Json.str "B"), ("pre", molTo pre)])
       | .ok out =>
         pure (Json.mkObj [("ok", Json.mkObj [("pre", molTo pre), ("fine", molTo out.fine),
-          ("coarse", Json.arr (out.coarse.map fun (k, ks) => Json.arr #[nat k, keysTo ks]).toArray)])])
+          ("coarse", Json.arr (out.coarse.map fun (k, ks) => Json.arr #[nat k, keysTo ks]).toArray)]),
+          ("hyp", Json.mkObj [("frags_wf", Json.bool (fragsWFb fd))])])
   | "readcg" =>
     let t ← ofStr (← j.getObjVal? "s")
     match readCG t with
